@@ -216,3 +216,46 @@ X_TOSTRING_MC = [dict(module="MC_XToString", cfg="MC_XToString.cfg", workers=2)]
 def run_x06(oc, repo, seed, tier):
     mc_all(oc, X_TOSTRING_MC, tier)
     core.trace_job(oc, X_TOSTRING_JOB, repo, seed, tier)
+
+# ------------------------------------------------------------------------------------------------------------------
+# X07 iterator protocol (two builds of one driver: plain and AddressSanitizer with stack-use-after-return detection)
+# ------------------------------------------------------------------------------------------------------------------
+X_ITER_FAMILIES = ["theta", "tuple", "kll", "req", "quantiles", "density", "varopt", "ebpps", "countmin"]
+
+def iter_nontrivial(evs):
+    # non-trivial: an object with more than one entry whose post-increment observations were made
+    return any(e["e"] == "Iter" and len(e["pre"]) > 1 and e["postAlive"] for e in evs)
+
+def _iter_args(tier, seed, k, profile):
+    return ["--seed", seed, "--rounds", 2 if tier == Q else 6, "--family", X_ITER_FAMILIES[k % len(X_ITER_FAMILIES)]]
+
+_ITER_INC = ["common", "theta", "tuple", "kll", "req", "quantiles", "sampling", "density", "count"]
+X_ITER_JOB = job("x_iter",
+    harness="x_iter", inc=_ITER_INC, spec="TraceXIter", owners=["X07"], rec_timeout=300,
+    files={Q: 9, T: 27}, par=9, args=_iter_args, nontrivial=iter_nontrivial,
+)
+X_ITER_ASAN_JOB = job("x_iter_asan",
+    harness="x_iter", inc=_ITER_INC, spec="TraceXIter", owners=["X07"], rec_timeout=600, tag="_asan",
+    flags=("-g", "-fsanitize=address", "-fno-omit-frame-pointer"),
+    files={Q: 9, T: 27}, par=9, args=_iter_args, nontrivial=iter_nontrivial,
+)
+X_ITER_MC = [dict(module="MC_XIter", cfg="MC_XIter.cfg", workers=2)]
+
+@prop("X07", "model_checking",
+      "MC: the C++ input-iterator protocol as a state machine over every sequence of up to 3 entries: with a postfix increment that returns a value "
+      "every saved `prev = it++` keeps denoting the old position and a traversal by `*it++` reads the sequence; a postfix increment returning a "
+      "reference to its dead temporary is rejected (negative configuration); traces: theta (update, compact, wrapped), tuple (update, compact), kll, "
+      "req, classic quantiles, density, var_opt, ebpps, count-min in the states empty / one / exact / estimating / merged (union results): "
+      "pre-increment from begin() yields exactly the reported number of retained entries and then equals end(); range-for, the non-const begin() and "
+      "std::distance (where a difference type is declared) agree; begin() == end() iff nothing is retained; in a forked child `x = *it++` walks the "
+      "same sequence, `prev = it++` equals a copy of the old position and dereferences to the old entry after `it` ran to the end - recorded twice, "
+      "by a plain build and by an AddressSanitizer build with detect_stack_use_after_return (a dangling reference is then a report, not luck). "
+      "A segment is non-trivial when an object with more than one entry passed the post-increment part",
+      ["frequent_items_sketch, hll and cpc expose no iterator; var_opt_sketch::iterator is private (repaired by the same patch, not reachable)",
+       "ebpps decides per begin() whether the partial item is shown: the library generator is reseeded alike before every traversal; the count is floor(c)..ceil(c)",
+       "std::distance is used only where iterator_traits declares a non-void difference_type (theta, tuple, count-min)"])
+def run_x07(oc, repo, seed, tier):
+    mc_all(oc, X_ITER_MC, tier)
+    oc.mc.append(core.model_check("MC_XIter", "MC_XIter_neg_ref.cfg", workers=2, expect_violation=True))
+    core.trace_job(oc, X_ITER_JOB, repo, seed, tier)
+    core.trace_job(oc, X_ITER_ASAN_JOB, repo, seed, tier)
